@@ -212,13 +212,16 @@ def run_full(c):
             r['sample'] = [cell(x) for x in np.atleast_1d(sampled_expr.get_value_c(database=db, prepare_ids=True))]
         except Exception as e:  # noqa
             r['sample_exc'] = f'{type(e).__name__}: {e}'[:300]
-        try:
-            r['full'] = [cell(x) for x in np.atleast_1d(full_expr.get_value_c(database=wide, prepare_ids=True))]
-        except Exception as e:  # noqa
-            r['full_exc'] = f'{type(e).__name__}: {e}'[:300]
+        if full_expr is not None:
+            try:
+                r['full'] = [cell(x) for x in np.atleast_1d(full_expr.get_value_c(database=wide, prepare_ids=True))]
+            except Exception as e:  # noqa
+                r['full_exc'] = f'{type(e).__name__}: {e}'[:300]
         res[tag] = r
 
-    both('logit', gm.get_logit(), models.loglogit(Vfull, None, Variable(chc)))
+    # partial = the strata are NOT fully sampled: only the value on the sample is wanted (compared by the
+    # harness with the closed form of the corrected logit)
+    both('logit', gm.get_logit(), None if c.get('partial') else models.loglogit(Vfull, None, Variable(chc)))
     if c.get('nested'):
         from biogeme.nests import OneNestForNestedLogit, NestsForNestedLogit
         ids = [int(a[0]) for a in c['alts']]
